@@ -34,6 +34,7 @@ type Partial struct {
 	FirstRun      uint64              `json:"first_run"`
 	LastRun       uint64              `json:"last_run"`
 	StoppedEarly  bool                `json:"stopped_early"`
+	EnumDone      int64               `json:"enum_done"`
 }
 
 const classCap = 1 << 19
@@ -146,6 +147,81 @@ func Worker(p Property, e *Env, shard, shards int, out string) int {
 		}
 		return code
 	}
+	accumulate := func(res *Result, sample map[string]interface{}) {
+		part.Steps += res.Steps
+		part.SimTimeNs += res.SimTimeNs
+		part.Faults.Merge(res.Faults)
+		part.Probes.Merge(res.Probes)
+		part.Extra.Merge(res.Extra)
+		if res.Strategy != "" {
+			part.Strategies.Inc(res.Strategy)
+		}
+		if res.NonTrivial {
+			part.NonTrivial++
+			cl := res.Classes
+			if cl == nil {
+				cl = []uint64{res.Class}
+			}
+			for _, c := range cl {
+				if len(classes) < classCap {
+					classes[c] = struct{}{}
+				} else if _, ok := classes[c]; !ok {
+					part.ClassesCapped = true
+				}
+			}
+			if sample != nil && res.Trace != nil {
+				sample["trace_hash"] = fmt.Sprintf("%016x", res.TraceHash)
+				sample["trace"] = capTrace(res.Trace, 120)
+				sample["strategy"] = res.Strategy
+				part.Samples = append(part.Samples, sample)
+			}
+		}
+		for _, kv := range res.Known {
+			if f := MatchFinding(e.Findings, kv); f != nil {
+				part.KnownHits[f.Text]++
+			}
+		}
+	}
+	// enumerated part: walked completely, sharded
+	enumN := p.EnumSize(e.Tier)
+	for i := shard; i < enumN; i += shards {
+		o := opts
+		o.KeepTrace = shard == 0 && len(part.Samples) < 2 && i > enumN/3
+		res := p.RunEnum(i, o)
+		if res == nil || res.Skipped {
+			if res != nil {
+				part.Extra.Merge(res.Extra)
+			}
+			continue
+		}
+		if res.Infra != "" {
+			part.Infra = fmt.Sprintf("enumeration slot %d: %s", i, res.Infra)
+			return finish(2)
+		}
+		part.EnumDone++
+		accumulate(res, map[string]interface{}{"enum_index": i})
+		if v := res.Violation; v != nil {
+			if f := MatchFinding(e.Findings, v); f != nil {
+				part.KnownHits[f.Text]++
+				continue
+			}
+			o2 := opts
+			o2.KeepTrace = true
+			fin := p.RunEnum(i, o2)
+			idx := i
+			rf := &ReplayFile{Property: p.ID(), Format: 1, VerifSeed: e.Seed, Tier: e.Tier, EnumIndex: &idx, Violation: fin.Violation,
+				Trace: capTrace(fin.Trace, 400), TraceHash: fmt.Sprintf("%016x", fin.TraceHash), Note: "failure of the enumerated part: replay re-evaluates this slot"}
+			dir := filepath.Join(e.Home, "replays")
+			os.MkdirAll(dir, 0o755)
+			path := filepath.Join(dir, fmt.Sprintf("%s-enum-%d.json", p.ID(), i))
+			if err := WriteJSON(path, rf); err != nil {
+				part.Infra = err.Error()
+				return finish(2)
+			}
+			part.Candidate = path
+			return finish(1)
+		}
+	}
 	first := true
 	for i := shard; i < total; i += shards {
 		if i%64 == shard%64 && time.Since(start) > soft {
@@ -168,33 +244,11 @@ func Worker(p Property, e *Env, shard, shards int, out string) int {
 			return finish(2)
 		}
 		part.Runs++
-		part.Steps += res.Steps
-		part.SimTimeNs += res.SimTimeNs
-		part.Faults.Merge(res.Faults)
-		part.Probes.Merge(res.Probes)
-		part.Extra.Merge(res.Extra)
-		if res.Strategy != "" {
-			part.Strategies.Inc(res.Strategy)
+		var sample map[string]interface{}
+		if o.KeepTrace {
+			sample = map[string]interface{}{"run_index": run, "run_seed": seed}
 		}
-		if res.NonTrivial {
-			part.NonTrivial++
-			if len(classes) < classCap {
-				classes[res.Class] = struct{}{}
-			} else {
-				part.ClassesCapped = true
-			}
-			if o.KeepTrace && res.Trace != nil {
-				part.Samples = append(part.Samples, map[string]interface{}{
-					"run_index": run, "run_seed": seed, "strategy": res.Strategy,
-					"trace_hash": fmt.Sprintf("%016x", res.TraceHash), "trace": capTrace(res.Trace, 120),
-				})
-			}
-		}
-		for _, kv := range res.Known {
-			if f := MatchFinding(e.Findings, kv); f != nil {
-				part.KnownHits[f.Text]++
-			}
-		}
+		accumulate(res, sample)
 		if v := res.Violation; v != nil {
 			if f := MatchFinding(e.Findings, v); f != nil {
 				part.KnownHits[f.Text]++
@@ -272,7 +326,15 @@ func Replay(p Property, e *Env, path string) int {
 		fmt.Fprintf(os.Stderr, "replay: file is for %s\n", rf.Property)
 		return 2
 	}
-	res := ExecTape(p, ReplayTape(rf.Tape), RunOpts{Tier: rf.Tier, KeepTrace: true})
+	var res *Result
+	if rf.EnumIndex != nil {
+		res = p.RunEnum(*rf.EnumIndex, RunOpts{Tier: rf.Tier, KeepTrace: true})
+		if res == nil {
+			res = NewResult()
+		}
+	} else {
+		res = ExecTape(p, ReplayTape(rf.Tape), RunOpts{Tier: rf.Tier, KeepTrace: true})
+	}
 	if res.Infra != "" {
 		fmt.Fprintf(os.Stderr, "replay: infra: %s\n", res.Infra)
 		return 2
@@ -590,6 +652,7 @@ func writeEvidence(e *Env, ev *evidence, d Description, pre *Result, parts []*Pa
 	var workerWall float64
 	for _, pt := range parts {
 		m.Runs += pt.Runs
+		m.EnumDone += pt.EnumDone
 		m.NonTrivial += pt.NonTrivial
 		m.Steps += pt.Steps
 		m.SimTimeNs += pt.SimTimeNs
@@ -633,9 +696,10 @@ func writeEvidence(e *Env, ev *evidence, d Description, pre *Result, parts []*Pa
 		perHour = float64(m.Runs) / workerWall * 3600
 	}
 	cov := map[string]interface{}{
-		"evaluations":         m.Runs + preEvals,
+		"evaluations":         m.Runs + preEvals + m.EnumDone,
 		"simulated_runs":      m.Runs,
-		"enumerated_cases":    preEvals,
+		"enumerated_cases":    preEvals + m.EnumDone,
+		"enumerated_part_exhaustive": m.EnumDone > 0,
 		"distinct_nontrivial": distinct,
 		"nontrivial_runs":     m.NonTrivial,
 		"distinct_capped":     capped,
